@@ -95,6 +95,13 @@ IterInv == Quiescent =>
              LET sk == SortedKeys(DOMAIN kv) IN
              Leaves(tree, <<>>) = [i \in 1..Len(sk) |-> <<sk[i], kv[sk[i]]>>]
 
+(* iteration from a start key yields exactly the entries at or after it, ascending *)
+LeavesFrom(n, start) == SelectSeq(Leaves(n, <<>>), LAMBDA e : SeqLeq(start, e[1]))
+IterFromInv == Quiescent =>
+                 \A start \in Keys :
+                   LET sk == SortedKeys({k \in DOMAIN kv : SeqLeq(start, k)}) IN
+                   LeavesFrom(tree, start) = [i \in 1..Len(sk) |-> <<sk[i], kv[sk[i]]>>]
+
 WFInv == Quiescent => WellFormed(tree, 0)
 
 (* concurrent batch: every worker keeps its child canonical for its share of the keys, the *)
